@@ -24,6 +24,131 @@ func runC20(c *Check) {
 	c.binrepImmutable()
 	c.goroutineRules("C20", "internal/driver", []string{"grabSourcesAndBases", "concurrentGrab"})
 	c.nestedLocks()
+	c.readModifyWrite()
+	c.perRequestState("C20-R2")
+}
+
+// readModifyWrite (R4b): a function that publishes a new value of a guarded field computed
+// from the old one must read the old value in the same critical section as the store;
+// reading it through a helper that takes the lock on its own (or before the lock is taken)
+// lets two writers start from the same snapshot and lose one update.
+func (c *Check) readModifyWrite() {
+	p := c.P
+	for _, g := range []struct{ T, F, mu, reader string }{{"binutils.Binutils", "rep", "mu", "get"}} {
+		accs := fieldAccesses(p, g.T, g.F)
+		byFn := map[*ssa.Function][]*ssa.FieldAddr{}
+		for _, a := range accs {
+			byFn[a.Parent()] = append(byFn[a.Parent()], a)
+		}
+		for f, fas := range byFn {
+			var stores, loads []ssa.Instruction
+			for _, fa := range fas {
+				for _, r := range *fa.Referrers() {
+					switch x := r.(type) {
+					case *ssa.Store:
+						if x.Addr == ssa.Value(fa) {
+							stores = append(stores, x)
+						}
+					case *ssa.UnOp:
+						loads = append(loads, x)
+					}
+				}
+			}
+			if len(stores) == 0 {
+				continue
+			}
+			key := "rmw:" + fnName(f)
+			bad := ""
+			// a helper that reads the field under its own lock must not be called here
+			for _, b := range f.Blocks {
+				for _, ins := range b.Instrs {
+					if call, ok := ins.(ssa.CallInstruction); ok && call.Common().StaticCallee() != nil && call.Common().StaticCallee().Name() == g.reader && call.Common().StaticCallee() != f {
+						if structName(call.Common().StaticCallee().Signature.Recv().Type()) == g.T {
+							bad = "it reads the current value through " + g.reader + "(), a separate critical section, before publishing the new one"
+						}
+					}
+				}
+			}
+			// direct reads and the store share one lock acquisition
+			for _, st := range stores {
+				for _, ld := range loads {
+					if !sameLockSection(f, ld, st) {
+						bad = "the old value is read outside the critical section in which the new one is stored"
+					}
+				}
+			}
+			if bad == "" {
+				c.ok("C20-R4", key, p.relFile(stores[0].Pos()), fnName(f)+" updates "+g.T+"."+g.F+" atomically", "the old value is read and the new one stored under one acquisition of the mutex")
+			} else {
+				c.bad("C20-R4", key, p.relFile(stores[0].Pos()), fnName(f)+" publishes a new "+g.T+"."+g.F+" but "+bad+": two concurrent setters can start from the same snapshot and one update is lost")
+			}
+		}
+	}
+}
+
+// sameLockSection: a and b are both dominated by the same Lock call with no Unlock of that
+// mutex executable between them.
+func sameLockSection(f *ssa.Function, a, b ssa.Instruction) bool {
+	calls := lockCalls(f)
+	for _, lc := range calls {
+		if !lc.lock || !instrDominates(lc.ins, a) || !instrDominates(lc.ins, b) {
+			continue
+		}
+		ok := true
+		for _, uc := range calls {
+			if uc.lock || uc.defer_ || uc.id != lc.id {
+				continue
+			}
+			first, second := a, b
+			if instrDominates(b, a) {
+				first, second = b, a
+			}
+			// an unlock that can run after `first` and before `second`
+			if (instrDominates(first, uc.ins) || first.Block() != uc.ins.Block() && blockReachesPlain(first.Block(), uc.ins.Block())) &&
+				(instrDominates(uc.ins, second) || uc.ins.Block() != second.Block() && blockReachesPlain(uc.ins.Block(), second.Block())) {
+				ok = false
+			}
+		}
+		if ok {
+			return true
+		}
+	}
+	return false
+}
+
+// perRequestState: web handlers keep their state per request: the functions that serve a
+// request never write fields of the server-wide webInterface or of the shared
+// plugin.Options (they work on copies).
+func (c *Check) perRequestState(rule string) {
+	p := c.P
+	m := newModAnalyzer(p)
+	n := 0
+	forAllPkgFuncs(p, "internal/driver", func(f *ssa.Function) {
+		if f.Signature.Recv() == nil || structName(f.Signature.Recv().Type()) != "driver.webInterface" {
+			if f.Parent() == nil || f.Parent().Signature.Recv() == nil || structName(f.Parent().Signature.Recv().Type()) != "driver.webInterface" {
+				return
+			}
+		}
+		n++
+		bad := ""
+		for _, e := range m.direct(f) {
+			if e.Root == rFresh {
+				continue
+			}
+			if e.T == "plugin.Options" || e.T == "driver.webInterface" {
+				bad = fmt.Sprintf("%s (%s) at %s", e.Target(), e.What, p.relFile(e.Pos))
+			}
+		}
+		key := "per-request:" + fnName(f)
+		if bad == "" {
+			c.ok(rule, key, p.relFile(f.Pos()), fnName(f)+" keeps its state per request", "no store into the shared webInterface or plugin.Options; options are modified on a local copy")
+		} else {
+			c.bad(rule, key, p.relFile(f.Pos()), fnName(f)+" writes server-wide state while serving a request: "+bad+"; concurrent requests see each other's settings and diagnostics")
+		}
+	})
+	if n < 8 {
+		c.undecided(rule, "per-request:count", "", "fewer webInterface methods than expected")
+	}
 }
 
 // guardedGlobals: every reference to the global is made with the mutex held.
@@ -782,6 +907,9 @@ func (c *Check) nestedLocks() {
 			if lc.lock {
 				ids[lc.id] = true
 			}
+		}
+		for _, lk := range lockLeaks(f) {
+			c.bad("C20-R1", "leak:"+fnName(f)+":"+lk.id, p.relFile(lk.ins.Pos()), fnName(f)+" can return with "+lk.id+" still locked (a path from Lock to return passes no Unlock): the next user of that mutex blocks forever")
 		}
 		key := "nest:" + fnName(f)
 		if len(ids) > 1 {
